@@ -1,2 +1,90 @@
 #[cfg(unix)]
 pub use super::imp::verif as imp;
+
+// Harness bodies for quinn-udp/src/cmsg/mod.rs (control message encoder / iterator).
+
+#[cfg(any(target_os = "linux", target_os = "android"))]
+mod bodies {
+    use super::super::*;
+
+    fn space<T>() -> usize {
+        <libc::cmsghdr as CMsgHdr>::cmsg_space(core::mem::size_of::<T>())
+    }
+
+    /// C19.a: `Encoder::{new,push,finish}` followed by `Iter` / `decode`, for every subset of the
+    /// control messages `prepare_msg` emits, in the order it emits them, with arbitrary values:
+    /// every write stays inside the 96-byte aligned control buffer (Kani's pointer checks),
+    /// `msg_controllen` ends up as the sum of CMSG_SPACE of what was pushed, iterating yields
+    /// exactly the same (level, type, value) sequence and then ends.
+    pub fn encode_iter_roundtrip(v6: bool, use_tos: bool, tos: i32, use_seg: bool, seg: u16, use_pktinfo: bool, addr4: u32, addr6: [u8; 16], ifindex: u32) -> u32 {
+        let mut ctrl = Aligned([0u8; LEN]);
+        let mut hdr: libc::msghdr = unsafe { core::mem::zeroed() };
+        hdr.msg_control = ctrl.0.as_mut_ptr() as _;
+        hdr.msg_controllen = LEN as _;
+        let mut want = 0usize;
+        {
+            let mut enc = unsafe { Encoder::new(&mut hdr) };
+            if use_tos {
+                if v6 {
+                    enc.push(libc::IPPROTO_IPV6, libc::IPV6_TCLASS, tos);
+                } else {
+                    enc.push(libc::IPPROTO_IP, libc::IP_TOS, tos);
+                }
+                want += space::<libc::c_int>();
+            }
+            if use_seg {
+                enc.push(libc::SOL_UDP, libc::UDP_SEGMENT, seg);
+                want += space::<u16>();
+            }
+            if use_pktinfo {
+                if v6 {
+                    enc.push(libc::IPPROTO_IPV6, libc::IPV6_PKTINFO, libc::in6_pktinfo { ipi6_ifindex: ifindex as _, ipi6_addr: libc::in6_addr { s6_addr: addr6 } });
+                    want += space::<libc::in6_pktinfo>();
+                } else {
+                    enc.push(libc::IPPROTO_IP, libc::IP_PKTINFO, libc::in_pktinfo { ipi_ifindex: ifindex as _, ipi_spec_dst: libc::in_addr { s_addr: addr4 }, ipi_addr: libc::in_addr { s_addr: 0 } });
+                    want += space::<libc::in_pktinfo>();
+                }
+            }
+            enc.finish();
+        }
+        assert!(hdr.msg_controllen as usize == want);
+        assert!(want <= LEN);
+        if want == 0 {
+            assert!(hdr.msg_control.is_null());
+        }
+        let mut it = unsafe { Iter::new(&hdr) };
+        let mut f = 1u32;
+        if use_tos {
+            let c = it.next().expect("TOS/TCLASS message missing");
+            assert!(c.cmsg_level == if v6 { libc::IPPROTO_IPV6 } else { libc::IPPROTO_IP });
+            assert!(c.cmsg_type == if v6 { libc::IPV6_TCLASS } else { libc::IP_TOS });
+            assert!(c.len() == <libc::cmsghdr as CMsgHdr>::cmsg_len(4));
+            assert!(unsafe { decode::<libc::c_int, libc::cmsghdr>(c) } == tos);
+            f |= 2;
+        }
+        if use_seg {
+            let c = it.next().expect("UDP_SEGMENT message missing");
+            assert!(c.cmsg_level == libc::SOL_UDP && c.cmsg_type == libc::UDP_SEGMENT);
+            assert!(unsafe { decode::<u16, libc::cmsghdr>(c) } == seg);
+            f |= 4;
+        }
+        if use_pktinfo {
+            let c = it.next().expect("PKTINFO message missing");
+            if v6 {
+                assert!(c.cmsg_level == libc::IPPROTO_IPV6 && c.cmsg_type == libc::IPV6_PKTINFO);
+                let p = unsafe { decode::<libc::in6_pktinfo, libc::cmsghdr>(c) };
+                assert!(p.ipi6_addr.s6_addr == addr6 && p.ipi6_ifindex as u32 == ifindex);
+            } else {
+                assert!(c.cmsg_level == libc::IPPROTO_IP && c.cmsg_type == libc::IP_PKTINFO);
+                let p = unsafe { decode::<libc::in_pktinfo, libc::cmsghdr>(c) };
+                assert!(p.ipi_spec_dst.s_addr == addr4 && p.ipi_ifindex as u32 == ifindex);
+            }
+            f |= 8;
+        }
+        assert!(it.next().is_none());
+        f
+    }
+}
+
+#[cfg(any(target_os = "linux", target_os = "android"))]
+pub use bodies::*;
